@@ -716,6 +716,8 @@ impl GlobalInferenceCtx<'_> {
                     }
                 }
                 Expr::ComptimeParam { .. } => ExprIsConst::Const,
+                // a type that is computed at runtime isn't const just because it is a type
+                Expr::Call { .. } | Expr::Param { .. } => ExprIsConst::Runtime,
                 _ => {
                     if matches!(*(self.tys[loc][expr]), Ty::Type | Ty::File(_)) {
                         ExprIsConst::Const
